@@ -420,6 +420,26 @@ def run(ctx):
                         bad.setdefault("oracle:layout:nufft_adjoint", ("nufft_adjoint of the same samples stored in layout %s differs from the C-contiguous result (relative %.3g)"
                                                                        % (tag, rel(av, a0) if av.shape == a0.shape else -1),
                                                                        dict(kind="accuracy", measure="layout", layout=tag, case=ser(c))))
+                # 2-D point sets (coord of shape (n1, n2, ndim), samples of shape batch + (n1, n2)): the same transform as for the
+                # flattened point list, whatever the memory layout of the sample array
+                npts = c["coord"].shape[0]
+                fac = [f for f in (2, 3, 4, 5) if npts % f == 0 and npts // f > 1]
+                if c["coord"].ndim == 2 and fac:
+                    f = rng.choice(fac)
+                    coord2 = c["coord"].reshape(f, npts // f, -1)
+                    y2 = np.ascontiguousarray(c["y"].reshape(c["bat"] + [f, npts // f]))
+                    f0 = np.asarray(sp.nufft(c["x"], coord2, **kwn))
+                    if f0.shape != tuple(c["bat"] + [f, npts // f]) or not np.allclose(f0.reshape(y0.shape), y0, rtol=1e-10, atol=1e-12 * (1 + np.abs(y0).max())):
+                        bad.setdefault("oracle:layout:nufft-2d-points", ("nufft with a 2-D point set differs from the same points given as a list",
+                                                                         dict(kind="accuracy", measure="layout", layout="2-D point set", case=ser(c))))
+                    for tag, yv in [("C", y2)] + layouts.variants(y2, rng, k=2):
+                        av = np.asarray(sp.nufft_adjoint(yv, coord2, oshape=c["bat"] + c["shape"], **kwn))
+                        ctx.count("layout:nufft_adjoint:2d-points:" + tag, key=str(_) + tag + "2d", nontrivial=True)
+                        if av.shape != a0.shape or not np.allclose(av, a0, rtol=1e-10, atol=1e-12 * (1 + np.abs(a0).max())):
+                            bad.setdefault("oracle:layout:nufft_adjoint-2d-points",
+                                           ("nufft_adjoint of samples on a 2-D point set stored in layout %s differs from the result for the flattened point list "
+                                            "(relative %.3g)" % (tag, rel(av, a0) if av.shape == a0.shape else -1),
+                                            dict(kind="accuracy", measure="layout", layout=tag + " / 2-D point set", case=ser(c))))
             except Exception as e:
                 bad.setdefault("exception:layout", ("nufft raised %r on a non-contiguous input" % e, {"kind": "impl-exception", "case": ser(c), "error": repr(e)}))
     ntoe = ctx.n(40, 600)
